@@ -1,6 +1,7 @@
 package httpgen
 
 import (
+	"strconv"
 	"strings"
 
 	"google.golang.org/protobuf/compiler/protogen"
@@ -73,7 +74,8 @@ func (g *Generator) collectMessageFieldExamples(gf *protogen.GeneratedFile, mess
 			fieldPath := messagePath + "." + string(field.Desc.Name())
 			gf.P(`"`, fieldPath, `": {`)
 			for _, example := range examples {
-				gf.P(`"`, example, `",`)
+				// Quote: an example may contain double quotes or backslashes
+				gf.P(strconv.Quote(example), ",")
 			}
 			gf.P("},")
 		}
